@@ -403,7 +403,8 @@ def run_property(pid: str, tier: str, seed: int, only_legs=None, n_override=None
     known = Known(prop)
     import glob
 
-    for old in glob.glob(os.path.join(VERIF_DIR, "replays", "%s-*.json" % pid)):
+    replay_root = os.environ.get("VERIF_REPLAY_ROOT", VERIF_DIR)  # sensitivity sweeps keep their replays out of /verif
+    for old in glob.glob(os.path.join(replay_root, "replays", "%s-*.json" % pid)):
         os.remove(old)
     legs = [l for l in prop.legs if not only_legs or l.name in only_legs]
     tasks = []
@@ -471,11 +472,11 @@ def run_property(pid: str, tier: str, seed: int, only_legs=None, n_override=None
         if key not in seen or len(canon(v["spec"])) < len(canon(seen[key]["spec"])):
             seen[key] = v
     viol_paths = []
-    os.makedirs(os.path.join(VERIF_DIR, "replays"), exist_ok=True)
+    os.makedirs(os.path.join(replay_root, "replays"), exist_ok=True)
     for (legname, clause), v in sorted(seen.items()):
         h = hashlib.blake2b((legname + clause + canon(v["spec"])).encode(), digest_size=5).hexdigest()
         rel = "replays/%s-%s-%s.json" % (pid, legname, h)
-        with open(os.path.join(VERIF_DIR, rel), "w") as fh:
+        with open(os.path.join(replay_root, rel), "w") as fh:
             json.dump({"property": pid, "leg": legname, "spec": v["spec"], "clauses": v["clauses"], "origin": v["origin"],
                        "seed": seed, "tier": tier}, fh, indent=1, default=repr)
         viol_paths.append(rel)
